@@ -275,6 +275,8 @@ PROPS['C04']['nx'] = {'cursorml': 'no overflow / panic in the MultilineContent a
 PROPS['C01']['nx']['directive'] = 'directive normalisation changes only ASCII letter case (bounded stand-in)'
 PROPS['C02']['nx'] = {'directive': 'directive normalisation keeps length, opener and everything after the directive name (bounded stand-in)'}
 PROPS['C03']['nx']['directive'] = 'directive normalisation is a fixpoint (bounded stand-in)'
+for _pid in ('C01', 'C02', 'C03', 'C08'):
+    PROPS[_pid].setdefault('nx', {})['linecomment'] = 'single-line comment normalisation at the lengths the separator rule needs: documented normal form and fixpoint (bounded stand-in extending KX rewriters)'
 _PIPE = 'end-to-end clause executed natively on the real pipeline (make_formatter(config).format) over an exhaustively enumerated small domain: bounded stand-in for the composition through parser and line-wrapping search, which no contract reaches'
 for _pid in ('C01', 'C03', 'C04', 'C07', 'C08', 'C09', 'C10', 'C15'):
     PROPS[_pid].setdefault('nx', {})['pipeline'] = _PIPE
